@@ -99,7 +99,7 @@ pub mod rand_stub {
     #[verifier::external_derive]
     #[derive(Debug)]
     pub struct NormalError {}
-    /// rand_distr 0.4: Normal::new fails unless std_dev is finite and >= 0 (bad mean is accepted)
+    /// rand_distr 0.4.3: Normal::new fails unless std_dev is finite (checked against the crate's code by Kani harness l2_normal_new)
     pub uninterp spec fn normal_std_ok(std_dev: f32) -> bool;
     impl Normal {
         #[verifier::external_body]
@@ -336,9 +336,9 @@ pub mod spec {
     pub open spec fn f32_eq(a: f32, b: f32) -> bool { a.eq_spec(&b) }
     pub open spec fn f32_ge(a: f32, b: f32) -> bool { a.partial_cmp_spec(&b) == Some(core::cmp::Ordering::Greater) || a.partial_cmp_spec(&b) == Some(core::cmp::Ordering::Equal) }
     /// float lemma L2 (discharged bit-precisely by the Kani harness `l2_normal_new` against rand_distr's real code):
-    /// Normal::new(mean, s) succeeds exactly when s is finite and s >= 0.0
+    /// Normal::new(mean, s) of rand_distr 0.4.3 succeeds exactly when s is finite (negative s is accepted by the crate)
     pub broadcast axiom fn ax_normal_std_ok(s: f32)
-        ensures #[trigger] crate::rand_stub::normal_std_ok(s) <==> (f_is_finite(s) && f32_ge(s, 0.0f32));
+        ensures #[trigger] crate::rand_stub::normal_std_ok(s) <==> f_is_finite(s);
     // A-hash: String's Hash and Eq are consistent (vstd has this for the primitive key types)
     #[verifier::allow(broadcast_without_trigger)]
     pub broadcast axiom fn ax_string_key_model() ensures vstd::std_specs::hash::obeys_key_model::<String>();
